@@ -16,9 +16,9 @@ macro "eok2" : tactic => `(tactic|
 
 /-! ### lexIdent -/
 
-theorem lexIdentRest_sat {n : Int} {l0 l : Lexer} {ty : ItemType} (hn : l.len = n ∧ (l.mp : Int) ≤ n ∧ 0 ≤ l.tagStart ∧ l.tagStart ≤ n ∧ l.bad = 0) (h0 : 0 ≤ l.start)
+theorem lexIdentRest_sat {n : Int} {l0 l : Lexer} {ty : ItemType} (hn : l.len = n ∧ (l.mp : Int) ≤ n ∧ 0 ≤ l.tagStart ∧ l.tagStart ≤ n ∧ l.bad = 0 ∧ l.tagBad = 0) (h0 : 0 ≤ l.start)
     (h1 : l.start ≤ l0.pos) (h2 : l.pos ≤ n) (hle : l0.pos ≤ l.pos) (hadv : l0.pos < n → l0.pos < l.pos)
-    (hty : emitOK ty (l.pos - l.start)) :
+    (hty : emitOK ty (l.pos - l.start)) (hi0 : l.input = l0.input) :
     Sat (lexIdentRest l ty) (Post n .ident l0) := by
   unfold lexIdentRest
   apply Sat.bind
@@ -41,7 +41,7 @@ theorem lexIdentRest_sat {n : Int} {l0 l : Lexer} {ty : ItemType} (hn : l.len = 
     · apply Sat.bind
       apply sliceOf_sat (by lx) (by lx) (by lx)
       intro _ _
-      first | exact errorf_sat (by lx) | exact errorfAt_sat (by lx)
+      first | exact errorf_sat (by lx) (by inq) | exact errorfAt_sat (by lx) (by inq) (by first | exact tag_err (by lx) (by lx) (Or.inl rfl) | exact tag_err (by lx) (by lx) (Or.inr rfl))
     · unfold emitInside
       apply Sat.bind
       apply emit_sat (by lx) (by lx) (by lx) (emitOK_mono hty (by lx))
@@ -55,38 +55,38 @@ theorem lexIdent_ok {n : Int} {l : Lexer} (hg : Good n l) :
   nx r l1 hl1 hs1 hf1
   split
   · nx d l2 hl2 hs2 hf2
-    exact lexIdentRest_sat (by lx) (by lx) (by lx) (by lx) (by lx) (by lx) (by eok2)
+    exact lexIdentRest_sat (by lx) (by lx) (by lx) (by lx) (by lx) (by lx) (by eok2) (by inq)
   split
   · apply Sat.bind
     apply peek_sat (by lx)
     intro p l2 hl2 hs2 hp2 hf2
     dsimp only
     split
-    · first | exact errorf_sat (by lx) | exact errorfAt_sat (by lx)
-    · exact lexIdentRest_sat (by lx) (by lx) (by lx) (by lx) (by lx) (by lx) (by eok2)
+    · first | exact errorf_sat (by lx) (by inq) | exact errorfAt_sat (by lx) (by inq) (by first | exact tag_err (by lx) (by lx) (Or.inl rfl) | exact tag_err (by lx) (by lx) (Or.inr rfl))
+    · exact lexIdentRest_sat (by lx) (by lx) (by lx) (by lx) (by lx) (by lx) (by eok2) (by inq)
   split
-  · exact lexIdentRest_sat (by lx) (by lx) (by lx) (by lx) (by lx) (by lx) (by eok2)
+  · exact lexIdentRest_sat (by lx) (by lx) (by lx) (by lx) (by lx) (by lx) (by eok2) (by inq)
   split
-  · exact lexIdentRest_sat (by lx) (by lx) (by lx) (by lx) (by lx) (by lx) (by eok2)
+  · exact lexIdentRest_sat (by lx) (by lx) (by lx) (by lx) (by lx) (by lx) (by eok2) (by inq)
   split
   · nx dot l2 hl2 hs2 hf2
     split
-    · first | exact errorf_sat (by lx) | exact errorfAt_sat (by lx)
+    · first | exact errorf_sat (by lx) (by inq) | exact errorfAt_sat (by lx) (by inq) (by first | exact tag_err (by lx) (by lx) (Or.inl rfl) | exact tag_err (by lx) (by lx) (Or.inr rfl))
     · nx d l3 hl3 hs3 hf3
-      exact lexIdentRest_sat (by lx) (by lx) (by lx) (by lx) (by lx) (by lx) (by eok2)
-  · exact lexIdentRest_sat (by lx) (by lx) (by lx) (by lx) (by lx) (by lx) (by eok2)
+      exact lexIdentRest_sat (by lx) (by lx) (by lx) (by lx) (by lx) (by lx) (by eok2) (by inq)
+  · exact lexIdentRest_sat (by lx) (by lx) (by lx) (by lx) (by lx) (by lx) (by eok2) (by inq)
 
 /-! ### `∃`-forms of the primitive rules, for the loops defined by `match h : … with` -/
 
 theorem next_ex {l : Lexer} (h0 : 0 ≤ l.pos) :
-    ∃ r l', l.next = some (r, l') ∧ (l'.len = l.len ∧ l'.mp = l.mp ∧ l'.tagStart = l.tagStart ∧ l'.bad = l.bad) ∧ l'.start = l.start ∧ NextFacts l r l' := by
-  obtain ⟨⟨r, l'⟩, h, f⟩ := next_sat (Q := fun x => (x.2.len = l.len ∧ x.2.mp = l.mp ∧ x.2.tagStart = l.tagStart ∧ x.2.bad = l.bad) ∧ x.2.start = l.start ∧ NextFacts l x.1 x.2)
+    ∃ r l', l.next = some (r, l') ∧ (l'.len = l.len ∧ l'.mp = l.mp ∧ l'.tagStart = l.tagStart ∧ l'.bad = l.bad ∧ l'.tagBad = l.tagBad ∧ l'.input = l.input) ∧ l'.start = l.start ∧ NextFacts l r l' := by
+  obtain ⟨⟨r, l'⟩, h, f⟩ := next_sat (Q := fun x => (x.2.len = l.len ∧ x.2.mp = l.mp ∧ x.2.tagStart = l.tagStart ∧ x.2.bad = l.bad ∧ x.2.tagBad = l.tagBad ∧ x.2.input = l.input) ∧ x.2.start = l.start ∧ NextFacts l x.1 x.2)
     h0 (fun _ _ a b c => ⟨a, b, c⟩)
   exact ⟨r, l', h, f⟩
 
 /-- facts about a `next` whose result is already known (after `split` on `match h : l.next with`) -/
 theorem next_facts {l l' : Lexer} {r : Int} (h : l.next = some (r, l')) (h0 : 0 ≤ l.pos) :
-    (l'.len = l.len ∧ l'.mp = l.mp ∧ l'.tagStart = l.tagStart ∧ l'.bad = l.bad) ∧ l'.start = l.start ∧ NextFacts l r l' := by
+    (l'.len = l.len ∧ l'.mp = l.mp ∧ l'.tagStart = l.tagStart ∧ l'.bad = l.bad ∧ l'.tagBad = l.tagBad ∧ l'.input = l.input) ∧ l'.start = l.start ∧ NextFacts l r l' := by
   obtain ⟨r2, l2, h2, f⟩ := next_ex h0
   rw [h] at h2
   simp only [Option.some.injEq, Prod.mk.injEq] at h2
@@ -95,25 +95,26 @@ theorem next_facts {l l' : Lexer} {r : Int} (h : l.next = some (r, l')) (h0 : 0 
 
 theorem emit_ex {l : Lexer} (t : ItemType) (h0 : 0 ≤ l.start) (h1 : l.start ≤ l.pos) (h2 : l.pos ≤ l.len)
     (hok : emitOK t (l.pos - l.start) := by exact emitOK_safe rfl rfl) :
-    ∃ l', l.emit t = some l' ∧ (l'.len = l.len ∧ l.mp ≤ l'.mp ∧ ((l'.mp : Int) = l.mp ∨ (l'.mp : Int) = l.pos) ∧ l'.tagStart = l.tagStart ∧ l'.bad = l.bad) ∧
+    ∃ l', l.emit t = some l' ∧ (l'.len = l.len ∧ l.mp ≤ l'.mp ∧ ((l'.mp : Int) = l.mp ∨ (l'.mp : Int) = l.pos) ∧ l'.tagStart = l.tagStart ∧ l'.bad = l.bad ∧ l'.tagBad = l.tagBad ∧ l'.input = l.input) ∧
       l'.pos = l.pos ∧ l'.start = l.pos ∧ l'.width = l.width :=
   emit_sat h0 h1 h2 hok (fun _ a b c d => ⟨a, b, c, d⟩)
 
 theorem maybeEmitText_ex {l : Lexer} {k : Int} (hs0 : 0 ≤ l.start) (hk : 0 ≤ k) (hp : l.pos - k ≤ l.len) :
-    ∃ l', maybeEmitText l k = some l' ∧ (l'.len = l.len ∧ l.mp ≤ l'.mp ∧ ((l'.mp : Int) = l.mp ∨ (l'.mp : Int) = l.pos - k) ∧ l'.tagStart = l.tagStart ∧ l'.bad = l.bad) ∧
+    ∃ l', maybeEmitText l k = some l' ∧ (l'.len = l.len ∧ l.mp ≤ l'.mp ∧ ((l'.mp : Int) = l.mp ∨ (l'.mp : Int) = l.pos - k) ∧ l'.tagStart = l.tagStart ∧ l'.bad = l.bad ∧ l'.tagBad = l.tagBad ∧ l'.input = l.input) ∧
       l'.pos = l.pos ∧ l'.width = l.width ∧
-      (l'.start = l.start ∨ (l.start < l.pos - k ∧ l'.start = l.pos - k)) :=
+      ((l'.start = l.start ∧ l.pos - k ≤ l.start) ∨ (l.start < l.pos - k ∧ l'.start = l.pos - k)) :=
   maybeEmitText_sat hs0 hk hp (fun _ a b c d => ⟨a, b, c, d⟩)
 
 /-! ### stringLexer -/
 
 theorem lexString_sat {n : Int} {l0 : Lexer} (q : Int) : ∀ (k : Nat) (l : Lexer), l.rem = k →
-    (l.len = n ∧ (l.mp : Int) ≤ n ∧ 0 ≤ l.tagStart ∧ l.tagStart ≤ n ∧ l.bad = 0) → 0 ≤ l.start → l.start ≤ l.pos → l.pos ≤ n → l0.pos ≤ l.pos →
+    (l.len = n ∧ (l.mp : Int) ≤ n ∧ 0 ≤ l.tagStart ∧ l.tagStart ≤ n ∧ l.bad = 0 ∧ l.tagBad = 0) → 0 ≤ l.start → l.start ≤ l.pos → l.pos ≤ n → l0.pos ≤ l.pos →
+    ((byteAt l.input l.start.toNat : Int) = q ∧ (q = 34 ∨ q = 39)) → l.input = l0.input →
     Sat (lexString q l) (Post n (.str q) l0) := by
   intro k
   induction k using Nat.strongRecOn with
   | _ k ih =>
-    intro l hk hn h0 h1 h2 hle
+    intro l hk hn h0 h1 h2 hle hqc hi0
     unfold lexString
     split
     · rename_i heq
@@ -123,7 +124,8 @@ theorem lexString_sat {n : Int} {l0 : Lexer} (q : Int) : ∀ (k : Nat) (l : Lexe
       obtain ⟨hl1, hs1, hf1⟩ := next_facts hnx (by lx)
       unfold NextFacts at hf1
       split
-      · first | exact errorf_sat (by lx) | exact errorfAt_sat (by lx)
+      · -- the string is never closed: reported at its opening quote, `l.start`
+        exact errorfAt_sat (by lx) (by inq) (str_err (by rw [hl1.2.2.2.2.2, hs1]; omega))
       split
       · split
         · rename_i heq
@@ -133,28 +135,31 @@ theorem lexString_sat {n : Int} {l0 : Lexer} (q : Int) : ∀ (k : Nat) (l : Lexe
           obtain ⟨hl2, hs2, hf2⟩ := next_facts hnx2 (by lx)
           unfold NextFacts at hf2
           exact ih l2.rem (by simp only [Lexer.rem] at hk ⊢; lx) l2 rfl (by lx) (by lx) (by lx) (by lx) (by lx)
+            (by rw [hl2.2.2.2.2.2, hl1.2.2.2.2.2, hs2, hs1]; exact hqc) (by inq)
       split
       · obtain ⟨l2, he, hl2, hp2, hs2, hw2⟩ := emit_ex .tString (l := l1) (by lx) (by lx) (by lx)
         simp only [he]
         apply Sat.ofSome
-        apply Post.of (by lx) (by lx) (by lx) (by lx) (by lx) (by intro _ _; lx) (by intro _ _; lx)
+        apply Post.of (by lx) (by lx) (by lx) (by lx) (by lx) (by intro _ _; lx) (by intro _ _; lx) (by exq) (by inq)
       · exact ih l1.rem (by simp only [Lexer.rem] at hk ⊢; lx) l1 rfl (by lx) (by lx) (by lx) (by lx) (by lx)
+          (by rw [hl1.2.2.2.2.2, hs1]; exact hqc) (by inq)
 
 
-theorem lexString_ok {n : Int} {l : Lexer} {q : Int} (hg : Good n l) :
+theorem lexString_ok {n : Int} {l : Lexer} {q : Int} (hg : Good n l) (hx : Extra (.str q) l) :
     Sat (lexString q l) (Post n (.str q) l) := by
   obtain ⟨hn, hs0, hsp, hpn⟩ := hg
-  exact lexString_sat q l.rem l rfl hn hs0 hsp hpn (Int.le_refl _)
+  simp only [Extra] at hx
+  exact lexString_sat q l.rem l rfl hn hs0 hsp hpn (Int.le_refl _) hx.2 rfl
 
 /-! ### lexNumber -/
 
 /-- what `scanNumber` and its parts return, relative to the lexer `l0` at its start -/
 def NumPost (n : Int) (l0 : Lexer) (adv : Bool) (res : ItemType × Bool × Lexer) : Prop :=
-  (res.2.2.len = n ∧ (res.2.2.mp : Int) ≤ n ∧ 0 ≤ res.2.2.tagStart ∧ res.2.2.tagStart ≤ n ∧ res.2.2.bad = 0) ∧ res.2.2.start = l0.start ∧ l0.pos ≤ res.2.2.pos ∧ res.2.2.pos ≤ n ∧
+  (res.2.2.len = n ∧ (res.2.2.mp : Int) ≤ n ∧ 0 ≤ res.2.2.tagStart ∧ res.2.2.tagStart ≤ n ∧ res.2.2.bad = 0 ∧ res.2.2.tagBad = 0) ∧ (res.2.2.start = l0.start ∧ res.2.2.input = l0.input) ∧ l0.pos ≤ res.2.2.pos ∧ res.2.2.pos ≤ n ∧
     (adv = true ∨ res.2.1 = false ∨ l0.pos < res.2.2.pos) ∧ (res.1 = .tInteger ∨ res.1 = .tFloat)
 
-theorem scanNumberEnd_sat {n : Int} {l0 l : Lexer} {typ : ItemType} {adv : Bool} (htyp : typ = .tInteger ∨ typ = .tFloat) (hn : l.len = n ∧ (l.mp : Int) ≤ n ∧ 0 ≤ l.tagStart ∧ l.tagStart ≤ n ∧ l.bad = 0)
-    (hs : l.start = l0.start) (h0 : 0 ≤ l0.pos) (hle : l0.pos ≤ l.pos) (h2 : l.pos ≤ n)
+theorem scanNumberEnd_sat {n : Int} {l0 l : Lexer} {typ : ItemType} {adv : Bool} (htyp : typ = .tInteger ∨ typ = .tFloat) (hn : l.len = n ∧ (l.mp : Int) ≤ n ∧ 0 ≤ l.tagStart ∧ l.tagStart ≤ n ∧ l.bad = 0 ∧ l.tagBad = 0)
+    (hs : l.start = l0.start ∧ l.input = l0.input) (h0 : 0 ≤ l0.pos) (hle : l0.pos ≤ l.pos) (h2 : l.pos ≤ n)
     (hadv : adv = true ∨ l0.pos < l.pos) :
     Sat (scanNumberEnd l typ) (NumPost n l0 adv) := by
   unfold scanNumberEnd
@@ -167,17 +172,17 @@ theorem scanNumberEnd_sat {n : Int} {l0 l : Lexer} {typ : ItemType} {adv : Bool}
     apply Sat.ret
     unfold NumPost
     dsimp only
-    refine ⟨by lx, by lx, by lx, by lx, Or.inr (Or.inl rfl), htyp⟩
+    refine ⟨by lx, ⟨by lx, by inq⟩, by lx, by lx, Or.inr (Or.inl rfl), htyp⟩
   · apply Sat.ret
     unfold NumPost
     dsimp only
-    refine ⟨by lx, by lx, by lx, by lx, ?_, htyp⟩
+    refine ⟨by lx, ⟨by lx, by inq⟩, by lx, by lx, ?_, htyp⟩
     rcases hadv with h | h
     · exact Or.inl h
     · exact Or.inr (Or.inr (by lx))
 
-theorem scanNumberExp_sat {n : Int} {l0 l : Lexer} {typ : ItemType} {adv : Bool} (htyp : typ = .tInteger ∨ typ = .tFloat) (hn : l.len = n ∧ (l.mp : Int) ≤ n ∧ 0 ≤ l.tagStart ∧ l.tagStart ≤ n ∧ l.bad = 0)
-    (hs : l.start = l0.start) (h0 : 0 ≤ l0.pos) (hle : l0.pos ≤ l.pos) (h2 : l.pos ≤ n)
+theorem scanNumberExp_sat {n : Int} {l0 l : Lexer} {typ : ItemType} {adv : Bool} (htyp : typ = .tInteger ∨ typ = .tFloat) (hn : l.len = n ∧ (l.mp : Int) ≤ n ∧ 0 ≤ l.tagStart ∧ l.tagStart ≤ n ∧ l.bad = 0 ∧ l.tagBad = 0)
+    (hs : l.start = l0.start ∧ l.input = l0.input) (h0 : 0 ≤ l0.pos) (hle : l0.pos ≤ l.pos) (h2 : l.pos ≤ n)
     (hadv : adv = true ∨ l0.pos < l.pos) :
     Sat (scanNumberExp l typ) (NumPost n l0 adv) := by
   unfold scanNumberExp
@@ -198,18 +203,18 @@ theorem scanNumberExp_sat {n : Int} {l0 l : Lexer} {typ : ItemType} {adv : Bool}
     · apply Sat.ret
       unfold NumPost
       dsimp only
-      refine ⟨by lx, by lx, by lx, by lx, Or.inr (Or.inl rfl), htyp⟩
-    · apply scanNumberEnd_sat (by first | exact Or.inl rfl | exact Or.inr rfl | assumption) (by lx) (by lx) (by lx) (by lx) (by lx)
+      refine ⟨by lx, ⟨by lx, by inq⟩, by lx, by lx, Or.inr (Or.inl rfl), htyp⟩
+    · apply scanNumberEnd_sat (by first | exact Or.inl rfl | exact Or.inr rfl | assumption) (by lx) ⟨by lx, by inq⟩ (by lx) (by lx) (by lx)
       rcases hadv with h | h
       · exact Or.inl h
       · exact Or.inr (by lx)
-  · apply scanNumberEnd_sat (by first | exact Or.inl rfl | exact Or.inr rfl | assumption) (by lx) (by lx) (by lx) (by lx) (by lx)
+  · apply scanNumberEnd_sat (by first | exact Or.inl rfl | exact Or.inr rfl | assumption) (by lx) ⟨by lx, by inq⟩ (by lx) (by lx) (by lx)
     rcases hadv with h | h
     · exact Or.inl h
     · exact Or.inr (by lx)
 
-theorem NumPost.fail {n : Int} {l0 l : Lexer} {typ : ItemType} (htyp : typ = .tInteger ∨ typ = .tFloat) (hn : l.len = n ∧ (l.mp : Int) ≤ n ∧ 0 ≤ l.tagStart ∧ l.tagStart ≤ n ∧ l.bad = 0)
-    (hs : l.start = l0.start) (hle : l0.pos ≤ l.pos) (h2 : l.pos ≤ n) :
+theorem NumPost.fail {n : Int} {l0 l : Lexer} {typ : ItemType} (htyp : typ = .tInteger ∨ typ = .tFloat) (hn : l.len = n ∧ (l.mp : Int) ≤ n ∧ 0 ≤ l.tagStart ∧ l.tagStart ≤ n ∧ l.bad = 0 ∧ l.tagBad = 0)
+    (hs : l.start = l0.start ∧ l.input = l0.input) (hle : l0.pos ≤ l.pos) (h2 : l.pos ≤ n) :
     Sat (pure (typ, false, l) : Option (ItemType × Bool × Lexer)) (NumPost n l0 false) := by
   apply Sat.ret
   exact ⟨hn, hs, hle, h2, Or.inr (Or.inl rfl), htyp⟩
@@ -240,11 +245,11 @@ theorem scanNumber_sat {n : Int} {l : Lexer} (hg : Good n l) :
   · rename_i hH
     have hlen2 := hisHex hH
     split
-    · exact NumPost.fail (by first | exact Or.inl rfl | exact Or.inr rfl | assumption) (by lx) (by lx) (by lx) (by lx)
+    · exact NumPost.fail (by first | exact Or.inl rfl | exact Or.inr rfl | assumption) (by lx) ⟨by lx, by inq⟩ (by lx) (by lx)
     · -- `l.pos += 2`
       generalize hl2d : ({ l1 with pos := l1.pos + 2 } : Lexer) = l2
-      have hl2 : l2.len = l1.len ∧ l2.mp = l1.mp ∧ l2.tagStart = l1.tagStart ∧ l2.bad = l1.bad := by
-        subst hl2d; exact ⟨rfl, rfl, rfl, rfl⟩
+      have hl2 : l2.len = l1.len ∧ l2.mp = l1.mp ∧ l2.tagStart = l1.tagStart ∧ l2.bad = l1.bad ∧ l2.tagBad = l1.tagBad ∧ l2.input = l1.input := by
+        subst hl2d; exact ⟨rfl, rfl, rfl, rfl, rfl, rfl⟩
       have hs2 : l2.start = l1.start := by subst hl2d; rfl
       have hp2 : l2.pos = l1.pos + 2 := by subst hl2d; rfl
       apply Sat.bind
@@ -252,7 +257,7 @@ theorem scanNumber_sat {n : Int} {l : Lexer} (hg : Good n l) :
       intro ok l3 hl3 hs3 hp3 hle3 hok
       dsimp only
       split
-      · exact NumPost.fail (by first | exact Or.inl rfl | exact Or.inr rfl | assumption) (by lx) (by lx) (by lx) (by lx)
+      · exact NumPost.fail (by first | exact Or.inl rfl | exact Or.inr rfl | assumption) (by lx) ⟨by lx, by inq⟩ (by lx) (by lx)
       · rename_i hok'
         have := hok (by simpa using hok')
         apply Sat.bind
@@ -260,14 +265,14 @@ theorem scanNumber_sat {n : Int} {l : Lexer} (hg : Good n l) :
         intro dot l4 hl4 hs4 hp4 hle4 _
         dsimp only
         split
-        · exact NumPost.fail (by first | exact Or.inl rfl | exact Or.inr rfl | assumption) (by lx) (by lx) (by lx) (by lx)
-        · exact scanNumberEnd_sat (by first | exact Or.inl rfl | exact Or.inr rfl | assumption) (by lx) (by lx) (by lx) (by lx) (by lx) (Or.inr (by lx))
+        · exact NumPost.fail (by first | exact Or.inl rfl | exact Or.inr rfl | assumption) (by lx) ⟨by lx, by inq⟩ (by lx) (by lx)
+        · exact scanNumberEnd_sat (by first | exact Or.inl rfl | exact Or.inr rfl | assumption) (by lx) ⟨by lx, by inq⟩ (by lx) (by lx) (by lx) (Or.inr (by lx))
   · apply Sat.bind
     apply acceptRun_sat (by lx) (by lx)
     intro ok l2 hl2 hs2 hp2 hle2 hok
     dsimp only
     split
-    · exact NumPost.fail (by first | exact Or.inl rfl | exact Or.inr rfl | assumption) (by lx) (by lx) (by lx) (by lx)
+    · exact NumPost.fail (by first | exact Or.inl rfl | exact Or.inr rfl | assumption) (by lx) ⟨by lx, by inq⟩ (by lx) (by lx)
     · rename_i hok'
       have hadv := hok (by simpa using hok')
       apply Sat.bind
@@ -280,8 +285,8 @@ theorem scanNumber_sat {n : Int} {l : Lexer} (hg : Good n l) :
         intro ok2 l4 hl4 hs4 hp4 hle4 _
         dsimp only
         split
-        · exact NumPost.fail (by first | exact Or.inl rfl | exact Or.inr rfl | assumption) (by lx) (by lx) (by lx) (by lx)
-        · exact scanNumberExp_sat (by first | exact Or.inl rfl | exact Or.inr rfl | assumption) (by lx) (by lx) (by lx) (by lx) (by lx) (Or.inr (by lx))
+        · exact NumPost.fail (by first | exact Or.inl rfl | exact Or.inr rfl | assumption) (by lx) ⟨by lx, by inq⟩ (by lx) (by lx)
+        · exact scanNumberExp_sat (by first | exact Or.inl rfl | exact Or.inr rfl | assumption) (by lx) ⟨by lx, by inq⟩ (by lx) (by lx) (by lx) (Or.inr (by lx))
       · apply Sat.bind
         have hbad : Sat (if (!hasSign) = true then do
               let b ← indexOf l3.input l3.start
@@ -304,8 +309,8 @@ theorem scanNumber_sat {n : Int} {l : Lexer} (hg : Good n l) :
         apply hbad.mono
         intro bad _
         split
-        · exact NumPost.fail (by first | exact Or.inl rfl | exact Or.inr rfl | assumption) (by lx) (by lx) (by lx) (by lx)
-        · exact scanNumberExp_sat (by first | exact Or.inl rfl | exact Or.inr rfl | assumption) (by lx) (by lx) (by lx) (by lx) (by lx) (Or.inr (by lx))
+        · exact NumPost.fail (by first | exact Or.inl rfl | exact Or.inr rfl | assumption) (by lx) ⟨by lx, by inq⟩ (by lx) (by lx)
+        · exact scanNumberExp_sat (by first | exact Or.inl rfl | exact Or.inr rfl | assumption) (by lx) ⟨by lx, by inq⟩ (by lx) (by lx) (by lx) (Or.inr (by lx))
 
 theorem lexNumber_ok {n : Int} {l : Lexer} (hg : Good n l) :
     Sat (lexNumber l) (Post n .number l) := by
@@ -322,7 +327,7 @@ theorem lexNumber_ok {n : Int} {l : Lexer} (hg : Good n l) :
   · apply Sat.bind
     apply sliceOf_sat (by lx) (by lx) (by lx)
     intro _ _
-    first | exact errorf_sat (by lx) | exact errorfAt_sat (by lx)
+    first | exact errorf_sat (by lx) (by inq) | exact errorfAt_sat (by lx) (by inq) (by first | exact tag_err (by lx) (by lx) (Or.inl rfl) | exact tag_err (by lx) (by lx) (Or.inr rfl))
   · rename_i hok
     have hok' : ok = true := by simpa using hok
     have : l.pos < l1.pos := by
@@ -331,14 +336,14 @@ theorem lexNumber_ok {n : Int} {l : Lexer} (hg : Good n l) :
       · rw [hok'] at h; exact absurd h (by simp)
       · exact h
     exact emitInside_sat (by lx) (by lx) (by lx) (by lx) (by lx)
-      (by rcases htyp with h | h <;> (subst h; exact emitOK_safe rfl rfl))
+      (by rcases htyp with h | h <;> (subst h; exact emitOK_safe rfl rfl)) (by inq)
 
 
 /-! ### lexHeaderParam -/
 
 theorem headerTypeLoop_sat {n : Int} {Q : Int × Lexer × Int → Prop} (l0 : Lexer) : ∀ (k : Nat) (l : Lexer) (lns : Int),
-    l.rem = k → (l.len = n ∧ (l.mp : Int) ≤ n ∧ 0 ≤ l.tagStart ∧ l.tagStart ≤ n ∧ l.bad = 0) → 0 ≤ l.pos → l.pos ≤ n → l0.pos ≤ lns → lns ≤ l.pos →
-    (∀ ch l' lns', (l'.len = n ∧ (l'.mp : Int) ≤ n ∧ 0 ≤ l'.tagStart ∧ l'.tagStart ≤ n ∧ l'.bad = 0) → l'.start = l.start → l0.pos ≤ lns' → lns' ≤ l'.pos → l'.pos ≤ n → Q (ch, l', lns')) →
+    l.rem = k → (l.len = n ∧ (l.mp : Int) ≤ n ∧ 0 ≤ l.tagStart ∧ l.tagStart ≤ n ∧ l.bad = 0 ∧ l.tagBad = 0) → 0 ≤ l.pos → l.pos ≤ n → l0.pos ≤ lns → lns ≤ l.pos →
+    (∀ ch l' lns', (l'.len = n ∧ (l'.mp : Int) ≤ n ∧ 0 ≤ l'.tagStart ∧ l'.tagStart ≤ n ∧ l'.bad = 0 ∧ l'.tagBad = 0) → (l'.start = l.start ∧ l'.input = l.input) → l0.pos ≤ lns' → lns' ≤ l'.pos → l'.pos ≤ n → Q (ch, l', lns')) →
     Sat (headerTypeLoop l lns) Q := by
   intro k
   induction k using Nat.strongRecOn with
@@ -353,13 +358,13 @@ theorem headerTypeLoop_sat {n : Int} {Q : Int × Lexer × Int → Prop} (l0 : Le
       obtain ⟨hl1, hs1, hf1⟩ := next_facts hnx (by lx)
       unfold NextFacts at hf1
       split
-      · exact Sat.ofSome (hq _ _ _ (by lx) hs1 (by lx) (by lx) (by lx))
+      · exact Sat.ofSome (hq _ _ _ (by lx) ⟨hs1, hl1.2.2.2.2.2⟩ (by lx) (by lx) (by lx))
       split
-      · exact Sat.ofSome (hq _ _ _ (by lx) hs1 (by lx) (by lx) (by lx))
+      · exact Sat.ofSome (hq _ _ _ (by lx) ⟨hs1, hl1.2.2.2.2.2⟩ (by lx) (by lx) (by lx))
       · apply ih l1.rem (by simp only [Lexer.rem] at hk ⊢; lx) l1 _ rfl (by lx) (by lx) (by lx)
           (by split <;> lx) (by split <;> lx)
         intro ch' l' lns' a b c d e
-        exact hq ch' l' lns' a (b.trans hs1) c d e
+        exact hq ch' l' lns' a ⟨b.1.trans hs1, b.2.trans hl1.2.2.2.2.2⟩ c d e
 
 theorem lexHeaderParam_ok {n : Int} {l : Lexer} (hg : Good n l) :
     Sat (lexHeaderParam l) (Post n .headerParam l) := by
@@ -369,7 +374,7 @@ theorem lexHeaderParam_ok {n : Int} {l : Lexer} (hg : Good n l) :
   apply hasPrefixAt_sat (by lx) (by lx)
   intro pre hpre
   split
-  · first | exact errorf_sat (by lx) | exact errorfAt_sat (by lx)
+  · first | exact errorf_sat (by lx) (by inq) | exact errorfAt_sat (by lx) (by inq) (by first | exact tag_err (by lx) (by lx) (Or.inl rfl) | exact tag_err (by lx) (by lx) (Or.inr rfl))
   · rename_i hp
     have hp' : pre = true := by simpa using hp
     have hlen := hpre hp'
@@ -377,12 +382,12 @@ theorem lexHeaderParam_ok {n : Int} {l : Lexer} (hg : Good n l) :
     nx q l1 hl1 hs1 hf1
     apply Sat.bind
     have hem : Sat (if q = 63 then l1.emit .tHeaderOptionalParam else l1.backup.emit .tHeaderParam)
-        (fun l2 => (l2.len = n ∧ (l2.mp : Int) ≤ n ∧ 0 ≤ l2.tagStart ∧ l2.tagStart ≤ n ∧ l2.bad = 0) ∧ l2.start = l2.pos ∧ l.pos + 5 ≤ l2.pos ∧ l2.pos ≤ n) := by
+        (fun l2 => (l2.len = n ∧ (l2.mp : Int) ≤ n ∧ 0 ≤ l2.tagStart ∧ l2.tagStart ≤ n ∧ l2.bad = 0 ∧ l2.tagBad = 0) ∧ (l2.start = l2.pos ∧ l2.input = l.input) ∧ l.pos + 5 ≤ l2.pos ∧ l2.pos ≤ n) := by
       split
       · em l2 hl2 hp2 hs2 hw2
-        exact ⟨by lx, by lx, by lx, by lx⟩
+        exact ⟨by lx, ⟨by lx, by inq⟩, by lx, by lx⟩
       · em l2 hl2 hp2 hs2 hw2
-        exact ⟨by lx, by lx, by lx, by lx⟩
+        exact ⟨by lx, ⟨by lx, by inq⟩, by lx, by lx⟩
     apply hem.mono
     intro l2 ⟨hl2, hs2, hp2, hn2⟩
     apply Sat.bind
@@ -400,7 +405,7 @@ theorem lexHeaderParam_ok {n : Int} {l : Lexer} (hg : Good n l) :
     intro l6 hl6 hs6 hp6 hn6
     nx c l7 hl7 hs7 hf7
     split
-    · first | exact errorf_sat (by lx) | exact errorfAt_sat (by lx)
+    · first | exact errorf_sat (by lx) (by inq) | exact errorfAt_sat (by lx) (by inq) (by first | exact tag_err (by lx) (by lx) (Or.inl rfl) | exact tag_err (by lx) (by lx) (Or.inr rfl))
     · apply Sat.bind
       em l8 hl8 hp8 hs8 hw8
       apply Sat.bind
@@ -413,12 +418,15 @@ theorem lexHeaderParam_ok {n : Int} {l : Lexer} (hg : Good n l) :
       intro ch l10 lns hl10 hs10 hlo hhi hn10
       dsimp only
       split
-      · first | exact errorf_sat (by lx) | exact errorfAt_sat (by lx)
+      · first | exact errorf_sat (by lx) (by inq) | exact errorfAt_sat (by lx) (by inq) (by first | exact tag_err (by lx) (by lx) (Or.inl rfl) | exact tag_err (by lx) (by lx) (Or.inr rfl))
       · apply Sat.bind
         em l11 hl11 hp11 hs11 hw11
         apply Sat.bind
         apply skipSpace_sat (by lx) (by lx)
         intro l12 hl12 hs12 hp12 hn12
+        have t3 : l10.tagBad = 0 := hl10.2.2.2.2.2
+        have t4 : l11.tagBad = 0 := by rw [hl11.2.2.2.2.2.1]; exact t3
+        have t5 : l12.tagBad = 0 := by rw [hl12.2.2.2.2.1]; exact t4
         fin
 
 /-! ### lexCss -/
@@ -434,7 +442,7 @@ theorem lexCss_ok {n : Int} {l : Lexer} (hg : Good n l) :
   unfold ScanFacts at hf2
   dsimp only
   split
-  · first | exact errorf_sat (by lx) | exact errorfAt_sat (by lx)
+  · first | exact errorf_sat (by lx) (by inq) | exact errorfAt_sat (by lx) (by inq) (by first | exact tag_err (by lx) (by lx) (Or.inl rfl) | exact tag_err (by lx) (by lx) (Or.inr rfl))
   · rename_i hne
     simp only [eof] at hne
     apply Sat.bind
@@ -445,7 +453,7 @@ theorem lexCss_ok {n : Int} {l : Lexer} (hg : Good n l) :
     intro bad l5 hl5 hs5 hp5 hn5
     dsimp only
     split
-    · first | exact errorf_sat (by lx) | exact errorfAt_sat (by lx)
+    · first | exact errorf_sat (by lx) (by inq) | exact errorfAt_sat (by lx) (by inq) (by first | exact tag_err (by lx) (by lx) (Or.inl rfl) | exact tag_err (by lx) (by lx) (Or.inr rfl))
     · apply Sat.bind
       em l6 hl6 hp6 hs6 hw6
       fin
@@ -462,7 +470,7 @@ theorem lexLiteral_ok {n : Int} {l : Lexer} (hg : Good n l) :
   unfold ScanFacts at hf1
   dsimp only
   split
-  · first | exact errorf_sat (by lx) | exact errorfAt_sat (by lx)
+  · first | exact errorf_sat (by lx) (by inq) | exact errorfAt_sat (by lx) (by inq) (by first | exact tag_err (by lx) (by lx) (Or.inl rfl) | exact tag_err (by lx) (by lx) (Or.inr rfl))
   · rename_i hch
     have hch' : ch = 125 := by simpa using hch
     apply Sat.bind
@@ -470,7 +478,7 @@ theorem lexLiteral_ok {n : Int} {l : Lexer} (hg : Good n l) :
     intro bad l2 hl2 hs2 hp2 hn2
     dsimp only
     split
-    · first | exact errorf_sat (by lx) | exact errorfAt_sat (by lx)
+    · first | exact errorf_sat (by lx) (by inq) | exact errorfAt_sat (by lx) (by inq) (by first | exact tag_err (by lx) (by lx) (Or.inl rfl) | exact tag_err (by lx) (by lx) (Or.inr rfl))
     · apply Sat.bind
       em l3 hl3 hp3 hs3 hw3
       apply Sat.bind
@@ -478,7 +486,7 @@ theorem lexLiteral_ok {n : Int} {l : Lexer} (hg : Good n l) :
       apply sliceOf_sat (by lx) (by lx) (by lx)
       intro rest hrest
       split
-      · first | exact errorf_sat (by lx) | exact errorfAt_sat (by lx)
+      · first | exact errorf_sat (by lx) (by inq) | exact errorfAt_sat (by lx) (by inq) (by first | exact tag_err (by lx) (by lx) (Or.inl rfl) | exact tag_err (by lx) (by lx) (Or.inr rfl))
       · rename_i i hi
         have hle := stringsIndex_le _ _ _ hi
         have hlen : ((if l3.doubleDelim = true then closeLiteral2 else closeLiteral1).length : Int) =
@@ -491,12 +499,12 @@ theorem lexLiteral_ok {n : Int} {l : Lexer} (hg : Good n l) :
         have hd0 : 0 ≤ (i : Int) := Int.natCast_nonneg _
         apply Sat.bind
         have hem : Sat (if i > 0 then (l3.addPos ↑i).emit .tText else pure (l3.addPos ↑i))
-            (fun l4 => (l4.len = n ∧ (l4.mp : Int) ≤ n ∧ 0 ≤ l4.tagStart ∧ l4.tagStart ≤ n ∧ l4.bad = 0) ∧ 0 ≤ l4.start ∧ l4.start ≤ l4.pos ∧ l4.pos = l3.pos + i) := by
+            (fun l4 => (l4.len = n ∧ (l4.mp : Int) ≤ n ∧ 0 ≤ l4.tagStart ∧ l4.tagStart ≤ n ∧ l4.bad = 0 ∧ l4.tagBad = 0) ∧ (0 ≤ l4.start ∧ l4.input = l.input) ∧ l4.start ≤ l4.pos ∧ l4.pos = l3.pos + i) := by
           split
           · em l4 hl4 hp4 hs4 hw4
-            exact ⟨by lx, by lx, by lx, by lx⟩
+            exact ⟨by lx, ⟨by lx, by inq⟩, by lx, by lx⟩
           · apply Sat.ret
-            exact ⟨by lx, by lx, by lx, by lx⟩
+            exact ⟨by lx, ⟨by lx, by inq⟩, by lx, by lx⟩
         apply hem.mono
         intro l4 ⟨hl4, hs4a, hs4b, hp4⟩
         apply Sat.bind
